@@ -79,3 +79,19 @@ package l1infotreesync
 //@   ensures[written-at-the-rollup-position] (result == nil && upsertCalls == old(upsertCalls) + 1) ==> leafNow(p.rollupExitTree) == upd(old(leafNow(p.rollupExitTree)), uint32(event.RollupID - 1), event.ExitRoot) && event.BlockNumber == blockNumber && desc(rhtL(p.rollupExitTree.Tree), rhtR(p.rollupExitTree.Tree), event.RollupExitRoot, uint32(event.RollupID - 1), 0) == event.ExitRoot
 //@   ensures[at-most-one-write] upsertCalls == old(upsertCalls) || upsertCalls == old(upsertCalls) + 1
 //@   ensures[skipped-only-if-unchanged] (result == nil && event != nil && tx != nil && event.ExitRoot != ZeroHash && upsertCalls == old(upsertCalls)) ==> desc(old(rhtL(p.rollupExitTree.Tree)), old(rhtR(p.rollupExitTree.Tree)), old(rootHash(p.rollupExitTree.Tree))[rootLastIdx(p.rollupExitTree.Tree)], uint32(event.RollupID - 1), 0) == event.ExitRoot
+
+// ---- reorg of the L1 info tree store (C04, C14): one transaction deletes the blocks from the first reorged one on
+// (the event tables follow by ON DELETE CASCADE, assumed A5) and the versions of both trees recorded from that block on
+//@ func (p *processor) Reorg
+//@   props C04 C14
+//@   sqltext "DELETE FROM block WHERE num >= $1;"
+//@   requires p != nil && p.db != nil && p.log != nil && p.l1InfoTree != nil && p.l1InfoTree.Tree != nil && p.rollupExitTree != nil && p.rollupExitTree.Tree != nil && p.l1InfoTree.Tree != p.rollupExitTree.Tree
+//@   requires lastTx < heapTop
+//@   modifies heap
+//@   ensures[all-or-nothing] lastTx != old(lastTx) ==> ((result == nil ==> txState(lastTx) == 1) && (result != nil ==> txState(lastTx) == 2))
+//@   ensures[no-transaction-no-success] lastTx == old(lastTx) ==> result != nil
+//@   ensures[committed-only-if-every-statement-succeeded] result == nil ==> stmtFail == old(stmtFail)
+//@   ensures[info-roots-from-that-block-on-dropped] result == nil ==> forall(i, int, rootHas(p.l1InfoTree.Tree)[i] == (old(rootHas(p.l1InfoTree.Tree))[i] && rootBlock(p.l1InfoTree.Tree)[i] < firstReorgedBlock))
+//@   ensures[rollup-exit-roots-from-that-block-on-dropped] result == nil ==> forall(i, int, rootHas(p.rollupExitTree.Tree)[i] == (old(rootHas(p.rollupExitTree.Tree))[i] && rootBlock(p.rollupExitTree.Tree)[i] < firstReorgedBlock))
+//@   ensures[halt-cleared-only-by-a-committed-reorg] p.halted != old(p.halted) ==> (result == nil && !p.halted && lastTx != old(lastTx) && txState(lastTx) == 1)
+//@   ensures[failed-reorg-keeps-halt] result != nil ==> p.halted == old(p.halted)
